@@ -91,3 +91,49 @@ func VP_C17_PolyRoots() {
 	vp.Assert(vp.Implies(vp.And(isRoot, vp.Not(allZero)), found), "no real root is missed")
 	vp.Reach("end")
 }
+
+// VP_C17_Search: the dense-search optimisers return a point whose value is
+// the objective at that point and at least as good as every sample they
+// evaluated, for an arbitrary objective (every value a solver variable).
+func VP_C17_Search() {
+	stops, rec := vp.Param("stops"), vp.Param("rec")
+	var xs, vals []float64
+	f := func(x float64) float64 {
+		v := vp.MemoFloat("f", x)
+		xs = append(xs, x)
+		vals = append(vals, v)
+		return v
+	}
+	switch vp.Param("kind") {
+	case 0:
+		ls := &LineSearch{Stops: stops, Recursions: rec}
+		x, fx := ls.Maximize(0, 1, f)
+		vp.Assert(fx == vp.MemoFloat("f", x), "the reported value is the objective at the reported point")
+		for _, v := range vals {
+			vp.Assert(fx >= v, "LineSearch.Maximize returns a point at least as good as every sample it evaluated")
+		}
+		vp.Assert(vp.And(x >= 0, x <= 1), "the reported point lies in the search interval")
+	case 1:
+		ls := &LineSearch{Stops: stops, Recursions: rec}
+		x, fx := ls.Minimize(0, 1, f)
+		vp.Assert(fx == vp.MemoFloat("f", x), "the reported value is the objective at the reported point")
+		for _, v := range vals {
+			vp.Assert(fx <= v, "LineSearch.Minimize returns a point at least as good as every sample it evaluated")
+		}
+	case 2:
+		var pts []Vec2
+		var pv []float64
+		g := &GridSearch2D{XStops: stops, YStops: stops, Recursions: rec}
+		c, fc := g.Maximize(Vec2{0, 0}, Vec2{1, 2}, func(p Vec2) float64 {
+			v := vp.MemoFloat("g", p[0], p[1])
+			pts = append(pts, p)
+			pv = append(pv, v)
+			return v
+		})
+		vp.Assert(fc == vp.MemoFloat("g", c[0], c[1]), "the reported value is the objective at the reported point")
+		for _, v := range pv {
+			vp.Assert(fc >= v, "GridSearch2D.Maximize returns a point at least as good as every sample it evaluated")
+		}
+	}
+	vp.Reach("end")
+}
